@@ -258,6 +258,9 @@ type c07IntMap struct {
 type c07Nested struct {
 	L []c07Chan `config:"l"`
 }
+type c07Plain struct {
+	C int `config:"c"`
+}
 type c07Iface struct {
 	E error `config:"e"`
 }
@@ -273,7 +276,7 @@ func H_C07_np_targets() {
 		"e": "err", "a": []interface{}{map[string]interface{}{"1": 2}, map[string]interface{}{}},
 	})
 	verif.Assume(err == nil)
-	k := verif.Choice("target", 16)
+	k := verif.Choice("target", 22)
 	verif.Reach("monitor: odd target")
 	verif.NoPanic("C07/unsupported target or source panics", func() {
 		switch k {
@@ -313,6 +316,40 @@ func H_C07_np_targets() {
 		case 15:
 			var np *c07Chan
 			ucfg.NewFrom(np)
+		case 16:
+			var np *c07Plain // nil pointer to a perfectly fine struct
+			c.Unpack(np)
+		case 17:
+			var nm map[string]interface{} // nil map passed by value
+			c.Unpack(nm)
+		case 18:
+			var any interface{}
+			c.Unpack(&any)
+		case 19:
+			var pp *c07Plain
+			c.Unpack(&pp)
+		case 20:
+			// a config attached below itself
+			d := ucfg.New()
+			d.SetInt("x", -1, 1)
+			d.SetChild("self", -1, d)
+			var m map[string]interface{}
+			d.Unpack(&m)
+			d.FlattenedKeys()
+			d.Path(".")
+		case 21:
+			// a config attached below one of its descendants
+			d, err := ucfg.NewFrom(map[string]interface{}{"a": map[string]interface{}{"b": map[string]interface{}{"v": 1}}})
+			if err == nil {
+				b, err := d.Child("a.b", -1, ucfg.PathSep("."))
+				if err == nil {
+					b.SetChild("up", -1, d)
+					var m map[string]interface{}
+					d.Unpack(&m)
+					d.FlattenedKeys()
+					b.Path(".")
+				}
+			}
 		}
 	})
 }
